@@ -179,6 +179,8 @@ def menu(fmt):
         add("L2.stop.marking", f"L2.stop_line.marking={m}", lambda s, m=m: find(s, "lanelets", 2)["stop_line"].__setitem__("marking", m))
     for m in members(LaneletType, fmt, "laneletType", ("lanelet_pb2", "LaneletTypeEnum.LaneletType")):
         add("L1.types", f"L1.types=[{m}]", lambda s, m=m: find(s, "lanelets", 1).__setitem__("types", [m]))
+        if fmt == "pb" and m == "URBAN":
+            add("L3.types", "L3.types=[]", lambda s: find(s, "lanelets", 3).pop("types", None))
         add("L3.types", f"L3.types=[BUS_LANE,{m}]", lambda s, m=m: find(s, "lanelets", 3).__setitem__("types", sorted({"BUS_LANE", m})))
     for m in members(RoadUser, fmt, "vehicleType", ("lanelet_pb2", "RoadUserEnum.RoadUser")):
         add("L1.users_one_way", f"L1.users_one_way=[{m}]", lambda s, m=m: find(s, "lanelets", 1).__setitem__("users_one_way", [m]))
@@ -283,6 +285,14 @@ def menu(fmt):
         add("O31.init.position", f"dynamic.initial_state.position={rg[0]}-region", lambda s, rg=rg: find(s, "obstacles", 31)["initial_state"]["attrs"].__setitem__("position", copy.deepcopy(rg)))
         add("O31.traj1.position", f"trajectory[1].position={rg[0]}-region", lambda s, rg=rg: find(s, "obstacles", 31)["prediction"]["states"][1]["attrs"].__setitem__("position", copy.deepcopy(rg)))
         add("O30.init.position", f"static.initial_state.position={rg[0]}-region", lambda s, rg=rg: find(s, "obstacles", 30)["initial_state"]["attrs"].__setitem__("position", copy.deepcopy(rg)))
+    # near-twins: a second shape that agrees with another shape of the same scenario to within 1 ulp (equal under the library's 10-decimal
+    # Shape.__eq__/__hash__, not bit-identical): whatever is keyed on shape equality must still store each shape's own numbers
+    up = lambda x: math.nextafter(x, math.inf)
+    add("O33.occ0.shape", "phantom.occupancy[0]=ulp-twin-of-occupancy[0]", lambda s: find(s, "obstacles", 33)["prediction"]["occ"][0].__setitem__("shape", ["rect", 3.0, 2.0, up(26.0), 2.5, 0.25]))
+    add("O33.occ1.shape", "phantom.occupancy[1]=ulp-twin-of-occupancy[1]", lambda s: find(s, "obstacles", 33)["prediction"]["occ"][1].__setitem__("shape", ["circle", 2.0, 27.0, up(2.75)]))
+    add("O34.shape", "environment.shape=ulp-twin-of-goal-polygon", lambda s: find(s, "obstacles", 34).__setitem__(
+        "shape", ["poly", [[20.5, up(0.125)], [30.75, 0.5], [41.0, 1.0], [41.0, 4.5], [30.75, 4.0], [20.5, 3.625]]]))
+    add("O31.pred.shape", "trajectory-prediction.shape=ulp-twin-of-obstacle-shape", lambda s: find(s, "obstacles", 31)["prediction"].__setitem__("shape", ["rect", 4.5, 2.0, up(0.0), 0.0, 0.0]))
     add("O32.occ1.t", "occupancy.time_step=interval", lambda s: find(s, "obstacles", 32)["prediction"]["occ"][1].__setitem__("t", ["iv", 2, 4]))
     add("O33.occ", "phantom.occupancies=1", lambda s: find(s, "obstacles", 33)["prediction"].__setitem__("occ", find(s, "obstacles", 33)["prediction"]["occ"][:1]))
 
